@@ -424,7 +424,12 @@ fn derive_plan(base: &Plan, m: &Model) -> Option<Plan> {
     if n_peers >= 2 && mix(base.seed ^ 0xc16) % 3 == 0 {
         let t_kill = 900_000 + mix(base.seed ^ 0xc17) % 600_000;
         let hang = (m.timeout_ms.max(m.notify_ms) + 300) * 1000;
-        p.nodes[1].tick.stop_us = Some(t_kill);
+        // with several remote peers all of them die at that instant, so that node 0 is the only
+        // survivor: one of several dying is the premise of C10, whose recorded defect (survivors
+        // that hold different amounts of the dead peer's input) this sub-batch must stay clear of
+        for k in 1..n_peers {
+            p.nodes[k].tick.stop_us = Some(t_kill);
+        }
         p.nodes[0].tick.pauses.push((t_kill + 20_000, t_kill + 20_000 + hang));
         p.horizon_us = p.horizon_us.max(t_kill + 20_000 + hang + 1_500_000);
         p.scenario = "c16-accepted-configuration+remote-dies-while-host-hangs".into();
